@@ -272,7 +272,7 @@ fn main() {
     let prop = Property {
         id: "C08",
         level: "exploration",
-        rule: "sender-only runs on a virtual clock: systematic grid (5 FEC x E x B x parity x interleave 1..5 x length lattice), cenc x transfer counts, carousel with removal, removal at every packet index of small objects; the stream is cut into transfers with Start/StopTransfer events and judged per transfer and block against the reference partition (source ESIs exactly once, repair <= parity, increasing ESIs, E-byte slices, RFC-only reassembly + independent inflate) and by a flag automaton for A/B; non-trivial = at least one transfer judged; distinct = session shape incl. partition",
+        rule: "sender-only runs on a virtual clock: systematic grid (5 FEC x E x B x parity x interleave 1..5 x length lattice), cenc x transfer counts, carousel with removal, removal at every packet index of small objects; the stream is cut into transfers with Start/StopTransfer events and judged per transfer and block against the reference partition (source ESIs exactly once, repair <= parity, increasing ESIs, E-byte slices, RFC-only reassembly + independent inflate) and by a flag automaton for A/B; non-trivial = at least one transfer judged; distinct = session shape incl. partition; close_session_then_more: read_close_session() after 0..14 packets of a session, once or twice - every packet read() returns afterwards has A = 0",
         assumptions: vec![
             "transfer boundaries come from the public Subscriber events, cross-checked by ESI monotonicity".into(),
             "zero padding of the final symbol is accepted for every scheme".into(),
